@@ -25,12 +25,59 @@ def U(g, lo, hi, *shape):
     return lo + (hi - lo) * torch.rand(tuple(shape), generator=g, dtype=D64)
 
 
+def UD(g, lo, hi, *shape):
+    """like U, but ALL entries of the tensor are pairwise distinct (stratified: one entry per slot of a random permutation,
+    pairwise gap >= 0.4 (hi - lo) / numel): no ARD / batched / multi-component parameter ever has two equal values"""
+    n = 1
+    for v in shape:
+        n *= int(v)
+    slots = torch.randperm(n, generator=g).to(D64)
+    t = (slots + 0.2 + 0.6 * torch.rand(n, generator=g, dtype=D64)) / n
+    return (lo + (hi - lo) * t).reshape(tuple(shape))
+
+
+def all_distinct(P):
+    """names of the tensor-valued parameters with two equal entries (must be empty)"""
+    bad = []
+    for n, v in P.items():
+        if torch.is_tensor(v) and v.numel() > 1 and v.dtype.is_floating_point and torch.unique(v).numel() != v.numel():
+            bad.append(n)
+        elif isinstance(v, dict):
+            bad += [n + "." + b for b in all_distinct(v)]
+        elif isinstance(v, list):
+            for t, w in enumerate(v):
+                if isinstance(w, dict):
+                    bad += ["%s[%d].%s" % (n, t, b) for b in all_distinct(w)]
+    return bad
+
+
+def tree_dups(node):
+    """parameters of a kernel tree that have two equal entries"""
+    out = list(all_distinct(node.get("P", {})))
+    if torch.is_tensor(node.get("s")) and node["s"].numel() > 1 and torch.unique(node["s"]).numel() != node["s"].numel():
+        out.append("outputscale")
+    for key in ("a", "b"):
+        if isinstance(node.get(key), dict):
+            out += tree_dups(node[key])
+    return out
+
+
+NTASKS = 3
+RANKS = {"1": 1, "2": 2, "full": NTASKS}
+
+
 # ------------------------------------------------------------------------------------------------
-# parameters (inside their constraints, away from the defaults)
-def sample_params(fam, d, ard, bs, g):
+# parameters (inside their constraints, away from the defaults); opt = dict(arg=<constructor argument>, val=<value class>) of an
+# "args" cell of Kernels.tla (empty for the cells of the main lattice)
+def sample_params(fam, d, ard, bs, g, opt=None):
+    opt = opt or {}
+
+    def ov(arg, default):
+        return opt["val"] if opt.get("arg") == arg else default
+    U = UD                                             # every parameter tensor has pairwise distinct entries
     k = d if ard else 1
     P = {}
-    if fam in ("rbf", "matern05", "matern15", "matern25", "rq", "rbfgrad", "matern52grad", "rbfgradgrad", "sdelta", "ngadd"):
+    if fam in ("rbf", "matern05", "matern15", "matern25", "rq", "rbfgrad", "matern52grad", "rbfgradgrad", "sdelta", "ngadd", "rff"):
         P["ls"] = U(g, 0.6, 1.6, *bs, 1, k)
     if fam in PPQ:
         P["ls"] = U(g, 1.2, 2.6, *bs, 1, k)            # part of the pairs inside, part outside the support r < 1
@@ -45,42 +92,83 @@ def sample_params(fam, d, ard, bs, g):
         P["var"] = U(g, 0.5, 1.5, *bs, 1, k)
     if fam in ("polynomial", "polygrad"):
         P["off"] = U(g, 0.3, 1.5, *bs, 1)
-        P["power"] = 2 + int(torch.randint(0, 2, (1,), generator=g))
+        pw = ov("power", None)
+        P["power"] = 2 + int(torch.randint(0, 2, (1,), generator=g)) if pw is None else int(pw[-1])
+        P["power_tensor"] = pw is not None and pw.startswith("tensor")        # power handed over as a 0-d tensor
     if fam == "constant":
         P["cv"] = U(g, 0.3, 1.5, *bs, 1)
     if fam == "sm":
-        nq = 3
+        nq = int(ov("num_mixtures", "3"))
         P["w"] = U(g, 0.2, 1.0, *bs, nq)
         P["means"] = U(g, 0.1, 0.8, *bs, nq, 1, d)
         P["scales"] = U(g, 0.1, 0.6, *bs, nq, 1, d)
     if fam == "sdelta":
-        P["Z"] = U(g, 0.1, 1.0, *bs, 4, d)
+        P["Z"] = U(g, 0.1, 1.0, *bs, int(ov("num_deltas", "4")), d)
     if fam == "arc":
         P["ls"] = U(g, 0.8, 1.6, *bs, 1, k)
         P["angle"] = U(g, 0.2, 0.8, *bs, 1, k)
         P["radius"] = U(g, 0.5, 1.5, *bs, 1, k)
+        P["delta"] = ov("delta_func", "ones")
+        P["base"] = ov("base_kernel", "matern25")
+        if P["base"] == "rq":
+            P["balpha"] = U(g, 0.5, 2.5, *bs, 1)
+        if P["base"] == "poly2":
+            P["boff"] = U(g, 0.3, 1.5, *bs, 1)
     if fam == "cyl":
-        P["aw"] = U(g, 0.2, 1.0, *bs, 3)
+        P["aw"] = U(g, 0.2, 1.0, *bs, int(ov("num_angular_weights", "3")))
+        P["eps"] = float(ov("eps", "1e-6"))
+        P["base"] = ov("radial_base_kernel", "matern25")
         P["alpha"] = U(g, 0.6, 1.8, *bs, 1)
         P["beta"] = U(g, 0.6, 1.8, *bs, 1)
         P["ls"] = U(g, 0.5, 1.5, *bs, 1, 1)
     if fam == "hamming":
         P["alpha"] = U(g, 0.5, 2.0, *bs, 1)
         P["beta"] = U(g, 0.5, 2.0, *bs, 1)
+        P["vocab"] = int(ov("vocab_size", str(HAMMING_VOCAB)))
     if fam == "gskl":
         P["ls"] = U(g, 0.8, 2.0, *bs, 1, 1)
     if fam == "ngadd":
-        P["R"] = d if d <= 2 else 2
+        md = ov("max_degree", "std")
+        P["R"] = {"std": d if d <= 2 else 2, "none": d, "1": 1, "2": 2, "over": d}[md]        # documented: default d, silently capped at d
+        P["Rarg"] = {"std": P["R"], "none": None, "1": 1, "2": 2, "over": d + 2}[md]
         P["o"] = U(g, 0.3, 1.2, *bs, P["R"])
+        P["base"] = ov("base_kernel", "rbf")
+        if P["base"] == "rq":
+            P["balpha"] = U(g, 0.5, 2.5, *bs, 1)
+    if fam in ("index", "multitask"):
+        r = RANKS[ov("rank", "1")]
+        P["B"] = U(g, -1.0, 1.0, *bs, NTASKS, r)
+        P["v"] = U(g, 0.2, 1.0, *bs, NTASKS)
+    if fam == "multitask":
+        P["datafam"] = ov("data_covar_module", "rbf")
+        P["data"] = sample_params(P["datafam"], d, ard, bs, g)
+    if fam == "lcm":
+        nb = int(ov("base_kernels", "2"))
+        rk = ov("rank", "1")
+        P["rank"] = [1, 2, 3][:nb] if rk == "list" else int(rk)
+        P["terms"] = []
+        for t in range(nb):
+            f = ("rbf", "matern15", "rq")[t]
+            r = P["rank"][t] if isinstance(P["rank"], list) else P["rank"]
+            P["terms"].append(dict(fam=f, P=sample_params(f, d, ard, bs, g), B=U(g, -1.0, 1.0, *bs, NTASKS, r), v=U(g, 0.2, 1.0, *bs, NTASKS)))
+    if fam == "rff":
+        P["ns"] = int(ov("num_samples", "4"))
+        P["nd"] = ov("num_dims", "none")
+        P["wseed"] = int(torch.randint(0, 2 ** 31 - 1, (1,), generator=g))
+    if fam == "distinput":
+        P["ls"] = U(g, 0.8, 2.0, *bs, 1, 1)
+        P["dist"] = ov("distance_function", "skl")
     return P
 
 
-def sample_inputs(fam, d_in, xb, n, g):
+def sample_inputs(fam, d_in, xb, n, g, vocab=HAMMING_VOCAB):
     """rows of the input matrix for `fam` with d_in columns"""
     if fam == "hamming":                 # one-hot encoded token sequences of length d_in, flattened
-        tok = torch.randint(0, HAMMING_VOCAB, (*xb, n, d_in), generator=g)
-        return torch.nn.functional.one_hot(tok, HAMMING_VOCAB).reshape(*xb, n, d_in * HAMMING_VOCAB).to(D64)
-    if fam == "gskl":                    # [means, log variances]
+        tok = torch.randint(0, vocab, (*xb, n, d_in), generator=g)
+        return torch.nn.functional.one_hot(tok, vocab).reshape(*xb, n, d_in * vocab).to(D64)
+    if fam == "index":                   # task indices
+        return torch.randint(0, NTASKS, (*xb, n, 1), generator=g).to(D64)
+    if fam in ("gskl", "distinput"):     # [means, log variances]
         return torch.cat([U(g, -1.0, 1.0, *xb, n, d_in), U(g, -1.0, 0.5, *xb, n, d_in)], dim=-1)
     if fam == "cyl":                     # inside the unit ball, away from the origin and from the boundary
         v = torch.randn(*xb, n, d_in, generator=g, dtype=D64)
@@ -181,25 +269,40 @@ def k_leaf(fam, P, x1, x2):
         z = P["Z"].unsqueeze(-3).unsqueeze(-3)                          # (*bs, 1, 1, S, d)
         return torch.cos(2 * PI * (u.unsqueeze(-2) * z).sum(-1)).mean(-1)
     if fam == "arc":
-        def emb(x):
+        def emb(x):                                                     # g_i(x) = [0, 0] if delta_i(x) is false, else w_i [sin, cos](pi rho_i x_i / L_i)
             t = PI * P["angle"] * x / P["ls"]
-            return torch.cat([P["radius"] * torch.sin(t), P["radius"] * torch.cos(t)], dim=-1)
+            act = arc_delta(P.get("delta", "ones"), x).to(torch.bool)
+            zero = torch.zeros_like(t)
+            return torch.cat([torch.where(act, P["radius"] * torch.sin(t), zero), torch.where(act, P["radius"] * torch.cos(t), zero)], dim=-1)
         e1, e2 = emb(x1), emb(x2)
-        return matern_of_r(2.5, (pdiff(e1, e2) ** 2).sum(-1).sqrt())    # base kernel Matern-5/2 with unit lengthscale
+        base = P.get("base", "matern25")                                # base kernel with unit lengthscale on the embedded points
+        if base == "poly2":
+            return ((e1.unsqueeze(-2) * e2.unsqueeze(-3)).sum(-1) + P["boff"].unsqueeze(-1)) ** 2
+        sq = (pdiff(e1, e2) ** 2).sum(-1)
+        if base == "rbf":
+            return torch.exp(-0.5 * sq)
+        if base == "rq":
+            a = P["balpha"].unsqueeze(-1)
+            return (1 + sq / (2 * a)) ** (-a)
+        return matern_of_r(MATERN_NU[base], safe_sqrt(sq))
     if fam == "cyl":
         r1, r2 = x1.norm(dim=-1, keepdim=True), x2.norm(dim=-1, keepdim=True)
         gram = (x1 / r1) @ (x2 / r2).transpose(-1, -2)
         ang = sum(P["aw"][..., p, None, None] * gram ** p for p in range(P["aw"].shape[-1]))
         al, be = P["alpha"].unsqueeze(-1), P["beta"].unsqueeze(-1)
 
+        eps = P.get("eps", CYL_EPS)
+
         def kuma(r):
-            return 1 - (1 - r ** al + CYL_EPS) ** be
+            return 1 - (1 - r ** al + eps) ** be
         rr = (kuma(r1) - kuma(r2).transpose(-1, -2)).abs() / P["ls"]
-        return matern_of_r(2.5, rr) * ang
+        base = P.get("base", "matern25")
+        return (torch.exp(-0.5 * rr * rr) if base == "rbf" else matern_of_r(MATERN_NU[base], rr)) * ang
     if fam == "hamming":
-        T = d // HAMMING_VOCAB
-        t1 = x1.reshape(*x1.shape[:-1], T, HAMMING_VOCAB).argmax(-1)
-        t2 = x2.reshape(*x2.shape[:-1], T, HAMMING_VOCAB).argmax(-1)
+        V = P.get("vocab", HAMMING_VOCAB)
+        T = d // V
+        t1 = x1.reshape(*x1.shape[:-1], T, V).argmax(-1)
+        t2 = x2.reshape(*x2.shape[:-1], T, V).argmax(-1)
         dh = (t1.unsqueeze(-2) != t2.unsqueeze(-3)).sum(-1).to(D64)
         al, be = P["alpha"].unsqueeze(-1), P["beta"].unsqueeze(-1)
         return ((1 + al) / (al + dh)) ** be
@@ -211,7 +314,7 @@ def k_leaf(fam, P, x1, x2):
         return torch.exp(-skl / P["ls"])
     if fam == "ngadd":                                                  # sum_deg outputscale_deg * e_deg(k_1, .., k_d), k_t = 1-d RBF kernels
         ard = P["ls"].shape[-1] > 1
-        zs = [k_leaf("rbf", {"ls": P["ls"][..., t:t + 1] if ard else P["ls"]}, x1[..., t:t + 1], x2[..., t:t + 1]) for t in range(d)]
+        zs = [k_leaf(P.get("base", "rbf"), {"ls": P["ls"][..., t:t + 1] if ard else P["ls"], "alpha": P.get("balpha")}, x1[..., t:t + 1], x2[..., t:t + 1]) for t in range(d)]
         res = 0
         for deg in range(1, P["R"] + 1):
             e = sum(_prod([zs[t] for t in S]) for S in itertools.combinations(range(d), deg))   # explicit sum over subsets
@@ -219,7 +322,68 @@ def k_leaf(fam, P, x1, x2):
         return res
     if fam in GRAD_ORDER:
         return grad_reference(fam, P, x1, x2)
+    if fam == "index":                                                  # k(i, j) = (B B^T + diag(v))_{ij}
+        Kt = task_cov(P["B"], P["v"])
+        i1, i2 = x1[..., 0].long(), x2[..., 0].long()
+        b = torch.broadcast_shapes(Kt.shape[:-2], i1.shape[:-1], i2.shape[:-1])
+        Kt, i1, i2 = Kt.expand(*b, NTASKS, NTASKS), i1.expand(*b, i1.shape[-1]), i2.expand(*b, i2.shape[-1])
+        rows = torch.gather(Kt, -2, i1.unsqueeze(-1).expand(*b, i1.shape[-1], NTASKS))
+        return torch.gather(rows, -1, i2.unsqueeze(-2).expand(*b, i1.shape[-1], i2.shape[-1]))
+    if fam == "multitask":                                              # K_XX (x) K_TT: Cov(f_s(x_i), f_t(x_j)) in row i T + s, column j T + t
+        return kron_tasks(k_leaf(P["datafam"], P["data"], x1, x2), task_cov(P["B"], P["v"]))
+    if fam == "lcm":                                                    # sum of multitask terms
+        return sum(kron_tasks(k_leaf(t["fam"], t["P"], x1, x2), task_cov(t["B"], t["v"])) for t in P["terms"])
+    if fam == "rff":                                                    # z(x)^T z(x') = (1/D) sum_i cos(w_i^T (x - x')), w = randn / lengthscale (drawn once, read back)
+        W = P["_kernel"].randn_weights.detach().to(D64)                 # (*bs, d, D)
+        om = W / P["ls"].transpose(-1, -2)
+        ph = pdiff(x1, x2) @ om.unsqueeze(-3)                           # (*b, n1, n2, D)
+        return torch.cos(ph).mean(-1)
+    if fam == "distinput":                                              # exp(-dist / lengthscale) with the user's distance function
+        return torch.exp(-DIST_REF[P["dist"]](x1, x2) / P["ls"])
     raise KeyError(fam)
+
+
+def arc_delta(kind, x):
+    """the activity indicators handed to ArcKernel as delta_func (1 = active)"""
+    if kind == "ones":
+        return torch.ones_like(x)
+    if kind == "nonneg":                                                # inactive coordinates are encoded as negative numbers
+        return (x >= 0).to(x.dtype)
+    if kind == "gate":                                                  # conditional space: coordinates 1.. exist only where coordinate 0 is positive
+        m = (x[..., :1] > 0).to(x.dtype).expand_as(x).clone()
+        m[..., 0] = 1.0
+        return m
+    raise KeyError(kind)
+
+
+def _skl_ref(x1, x2):
+    h = x1.shape[-1] // 2
+    m1, v1 = x1[..., :h].unsqueeze(-2), x1[..., h:].exp().unsqueeze(-2) + GSKL_EPS
+    m2, v2 = x2[..., :h].unsqueeze(-3), x2[..., h:].exp().unsqueeze(-3) + GSKL_EPS
+    return 0.5 * (v1 / v2 + v2 / v1 - 2 + (m1 - m2) ** 2 * (1 / v1 + 1 / v2)).sum(-1)
+
+
+DIST_REF = {"skl": _skl_ref, "l1": lambda a, b: pdiff(a, b).abs().sum(-1), "sqmean": lambda a, b: (pdiff(a, b)[..., :a.shape[-1] // 2] ** 2).sum(-1)}
+
+
+def dist_user(kind):
+    """the distance_function handed to DistributionalInputKernel (written the way a user would: broadcasting over rows)"""
+    if kind == "skl":
+        from gpytorch.kernels.gaussian_symmetrized_kl_kernel import _symmetrized_kl
+        return _symmetrized_kl
+    if kind == "l1":
+        return lambda a, b: (a.unsqueeze(-2) - b.unsqueeze(-3)).abs().sum(-1)
+    return lambda a, b: ((a[..., :a.shape[-1] // 2].unsqueeze(-2) - b[..., :b.shape[-1] // 2].unsqueeze(-3)) ** 2).sum(-1)
+
+
+def task_cov(B, v):
+    return B @ B.transpose(-1, -2) + torch.diag_embed(v)
+
+
+def kron_tasks(Kx, Kt):
+    b = torch.broadcast_shapes(Kx.shape[:-2], Kt.shape[:-2])
+    n1, n2, T = Kx.shape[-2], Kx.shape[-1], Kt.shape[-1]
+    return torch.einsum("...ij,...st->...isjt", Kx.expand(*b, n1, n2), Kt.expand(*b, T, T)).reshape(*b, n1 * T, n2 * T)
 
 
 def _prod(ts):
@@ -323,6 +487,9 @@ def ref_tree(node, x1, x2):
         return ref_tree(node["a"], x1, x2) * ref_tree(node["b"], x1, x2)
     if t in ("addstruct", "prodstruct"):
         leaf = node["a"]
+        if node.get("ad") is not None:                                  # active_dims of the structure kernel itself
+            idx = torch.tensor(node["ad"], dtype=torch.long)
+            x1, x2 = x1.index_select(-1, idx), x2.index_select(-1, idx)
         terms = []
         for k in range(x1.shape[-1]):                                   # one 1-d kernel per input dimension
             Pk = {n: (v[..., k:k + 1] if (torch.is_tensor(v) and n in ("ls", "period", "var") and v.shape[-1] > 1) else v) for n, v in leaf["P"].items()}
@@ -331,14 +498,57 @@ def ref_tree(node, x1, x2):
     raise KeyError(t)
 
 
+def neutral_kwargs(opt):
+    """constructor keywords of a NEUTRAL argument (constraint / prior / eps of a stationary kernel) of an args cell"""
+    import gpytorch
+    arg, val = opt.get("arg"), opt.get("val")
+    if arg is None or opt.get("effect") != "neutral":
+        return {}
+    if arg.endswith("_constraint"):
+        if val == "positive":
+            return {}
+        return {arg: gpytorch.constraints.Interval(0.02, 30.0) if val == "interval" else gpytorch.constraints.GreaterThan(0.02)}
+    if arg.endswith("prior"):
+        return {} if val == "none" else {arg: gpytorch.priors.GammaPrior(2.0, 3.0)}
+    if arg == "eps":
+        return {"eps": float(val)}
+    raise KeyError(arg)
+
+
+def apply_sets(k, sets, opt):
+    """parameters through the public setters - or, for the parameter of a '<name>_prior = closure' cell, through the setting closure
+    registered together with the prior (what sample_from_prior / pyro use)"""
+    for obj, attr, val in sets:
+        if obj is k and opt.get("arg") == attr + "_prior" and opt.get("val") == "closure":
+            obj._priors[attr + "_prior"][2](obj, val)
+        else:
+            setattr(obj, attr, val)
+
+
+def base_of(K, name, bs=(), **kw):
+    """inner kernels handed to ArcKernel / CylindricalKernel / NewtonGirardAdditiveKernel / the structure kernels"""
+    if len(bs):
+        kw["batch_shape"] = torch.Size(bs)
+    if name == "rbf":
+        return K.RBFKernel(**kw)
+    if name in MATERN_NU:
+        return K.MaternKernel(nu=MATERN_NU[name], **kw)
+    if name == "rq":
+        return K.RQKernel(**kw)
+    if name == "poly2":
+        return K.PolynomialKernel(power=2, **kw)
+    raise KeyError(name)
+
+
 def build_leaf(K, node):
     fam, d, ard, bs, P = node["fam"], node["d"], node["ard"], torch.Size(node["bs"]), node["P"]
-    kw = {}
+    opt = node.get("opt") or {}
+    kw = dict(neutral_kwargs(opt))
     if node["ad"] is not None:
         kw["active_dims"] = tuple(node["ad"])
     if len(bs):
         kw["batch_shape"] = bs
-    if ard and fam != "sm":
+    if ard and fam not in ("sm", "multitask", "lcm"):
         kw["ard_num_dims"] = d
     if fam == "rbf":
         k = K.RBFKernel(**kw)
@@ -353,7 +563,7 @@ def build_leaf(K, node):
     elif fam == "linear":
         k = K.LinearKernel(**kw)
     elif fam == "polynomial":
-        k = K.PolynomialKernel(power=P["power"], **kw)
+        k = K.PolynomialKernel(power=torch.tensor(P["power"]) if P.get("power_tensor") else P["power"], **kw)
     elif fam in PPQ:
         k = K.PiecewisePolynomialKernel(q=PPQ[fam], **kw)
     elif fam == "constant":
@@ -361,13 +571,25 @@ def build_leaf(K, node):
     elif fam == "sm":
         k = K.SpectralMixtureKernel(num_mixtures=P["w"].shape[-1], ard_num_dims=d, **kw)
     elif fam == "sdelta":
-        k = K.SpectralDeltaKernel(num_dims=d, num_deltas=P["Z"].shape[-2], **kw)
+        k = K.SpectralDeltaKernel(num_dims=d, **({} if (opt.get("arg"), opt.get("val")) == ("num_deltas", "128") else {"num_deltas": P["Z"].shape[-2]}), **kw)
     elif fam == "arc":
-        k = K.ArcKernel(K.MaternKernel(nu=2.5), **kw)
+        delta = P.get("delta", "ones")
+        if opt.get("arg") == "base_kernel":            # built under a float64 default: ArcKernel.__init__ itself gives the base kernel its unit lengthscale (not re-set below)
+            prev = torch.get_default_dtype()
+            torch.set_default_dtype(D64)
+            try:
+                k = K.ArcKernel(base_of(K, P["base"], bs if P["base"] in ("rq", "poly2") else ()), **kw)
+            finally:
+                torch.set_default_dtype(prev)
+            P["keep_base_ls"] = True
+        else:
+            k = K.ArcKernel(base_of(K, P.get("base", "matern25"), bs if P.get("base") in ("rq", "poly2") else ()),
+                            **({} if delta == "ones" else {"delta_func": lambda x: arc_delta(delta, x)}), **kw)
     elif fam == "cyl":
-        k = K.CylindricalKernel(num_angular_weights=P["aw"].shape[-1], radial_base_kernel=K.MaternKernel(nu=2.5, **({"batch_shape": bs} if len(bs) else {})), **kw)
+        k = K.CylindricalKernel(num_angular_weights=P["aw"].shape[-1], radial_base_kernel=base_of(K, P.get("base", "matern25"), bs),
+                                **({"eps": P["eps"]} if opt.get("arg") == "eps" else {}), **kw)
     elif fam == "hamming":
-        k = K.HammingIMQKernel(vocab_size=HAMMING_VOCAB, **kw)
+        k = K.HammingIMQKernel(vocab_size=P.get("vocab", HAMMING_VOCAB), **kw)
     elif fam == "gskl":
         k = K.GaussianSymmetrizedKLKernel(**kw)
     elif fam == "rbfgrad":
@@ -375,50 +597,72 @@ def build_leaf(K, node):
     elif fam == "matern52grad":
         k = K.Matern52KernelGrad(**kw)
     elif fam == "polygrad":
-        k = K.PolynomialKernelGrad(power=P["power"], **kw)
+        k = K.PolynomialKernelGrad(power=torch.tensor(P["power"]) if P.get("power_tensor") else P["power"], **kw)
     elif fam == "rbfgradgrad":
         k = K.RBFKernelGradGrad(**kw)
     elif fam == "ngadd":
-        base = K.RBFKernel(**{a: b for a, b in kw.items() if a != "active_dims"})
-        k = K.NewtonGirardAdditiveKernel(base, num_dims=d, max_degree=P["R"], **({"batch_shape": bs} if len(bs) else {}))
+        base = base_of(K, P.get("base", "rbf"), **{a: b for a, b in kw.items() if a != "active_dims"})
+        k = K.NewtonGirardAdditiveKernel(base, num_dims=d, max_degree=P.get("Rarg", P["R"]), **({"batch_shape": bs} if len(bs) else {}),
+                                         **({"active_dims": kw["active_dims"]} if "active_dims" in kw else {}))
+    elif fam == "index":
+        k = K.IndexKernel(num_tasks=NTASKS, rank=P["B"].shape[-1], **kw)
+    elif fam == "multitask":
+        data = build_leaf(K, dict(t="leaf", fam=P["datafam"], d=d, ard=ard, bs=list(bs), ad=None, P=P["data"]))
+        k = K.MultitaskKernel(data, num_tasks=NTASKS, rank=P["B"].shape[-1], **kw)
+    elif fam == "lcm":
+        k = K.LCMKernel([build_leaf(K, dict(t="leaf", fam=t["fam"], d=d, ard=ard, bs=list(bs), ad=None, P=t["P"])) for t in P["terms"]], num_tasks=NTASKS, rank=P["rank"])
+    elif fam == "rff":
+        torch.manual_seed(P["wseed"])                                   # the random frequencies are read back from the kernel by the reference
+        k = K.RFFKernel(num_samples=P["ns"], **({"num_dims": d} if P["nd"] == "d" else {}), **kw)
+    elif fam == "distinput":
+        k = K.DistributionalInputKernel(dist_user(P["dist"]), **kw)
     else:
         raise KeyError(fam)
     k = k.to(D64)
-    # parameters through the public setters
+    P["_kernel"] = k
+    sets = []                                                           # (object, attribute, value)
     if fam == "ngadd":
-        k.base_kernel.lengthscale = P["ls"]
-        k.outputscale = P["o"]
+        sets += [(k.base_kernel, "lengthscale", P["ls"]), (k, "outputscale", P["o"])]
+        if P.get("base") == "rq":
+            sets.append((k.base_kernel, "alpha", P["balpha"]))
     elif fam == "cyl":
-        k.angular_weights = P["aw"]
-        k.alpha = P["alpha"]
-        k.beta = P["beta"]
-        k.radial_base_kernel.lengthscale = P["ls"]
+        sets += [(k, "angular_weights", P["aw"]), (k, "alpha", P["alpha"]), (k, "beta", P["beta"]), (k.radial_base_kernel, "lengthscale", P["ls"])]
+    elif fam in ("index", "multitask"):
+        ik = k if fam == "index" else k.task_covar_module
+        ik.initialize(covar_factor=P["B"])
+        sets.append((ik, "var", P["v"]))
+    elif fam == "lcm":
+        for m, t in zip(k.covar_module_list, P["terms"]):
+            m.task_covar_module.initialize(covar_factor=t["B"])
+            sets.append((m.task_covar_module, "var", t["v"]))
     else:
         if "ls" in P:
-            k.lengthscale = P["ls"]
+            sets.append((k, "lengthscale", P["ls"]))
         if fam == "rq":
-            k.alpha = P["alpha"]
+            sets.append((k, "alpha", P["alpha"]))
         if fam in ("periodic", "cosine"):
-            k.period_length = P["period"]
+            sets.append((k, "period_length", P["period"]))
         if fam == "linear":
-            k.variance = P["var"]
+            sets.append((k, "variance", P["var"]))
         if fam in ("polynomial", "polygrad"):
-            k.offset = P["off"]
+            sets.append((k, "offset", P["off"]))
         if fam == "constant":
-            k.constant = P["cv"]
+            sets.append((k, "constant", P["cv"]))
         if fam == "sm":
-            k.mixture_weights = P["w"]
-            k.mixture_means = P["means"]
-            k.mixture_scales = P["scales"]
+            sets += [(k, "mixture_weights", P["w"]), (k, "mixture_means", P["means"]), (k, "mixture_scales", P["scales"])]
         if fam == "sdelta":
-            k.Z = P["Z"]
+            sets.append((k, "Z", P["Z"]))
         if fam == "arc":
-            k.angle = P["angle"]
-            k.radius = P["radius"]
-            k.base_kernel.lengthscale = torch.ones(1, 1, dtype=D64)      # ArcKernel.__init__ set it to 1 in float32 (1 - 4.5e-10 after .to(float64))
+            sets += [(k, "angle", P["angle"]), (k, "radius", P["radius"])]
+            if k.base_kernel.has_lengthscale and not P.get("keep_base_ls"):
+                sets.append((k.base_kernel, "lengthscale", torch.ones(1, 1, dtype=D64)))   # ArcKernel.__init__ set it to 1 in float32 (1 - 4.5e-10 after .to(float64))
+            if P.get("base") == "rq":
+                sets.append((k.base_kernel, "alpha", P["balpha"]))
+            if P.get("base") == "poly2":
+                sets.append((k.base_kernel, "offset", P["boff"]))
         if fam == "hamming":
-            k.alpha = P["alpha"]
-            k.beta = P["beta"]
+            sets += [(k, "alpha", P["alpha"]), (k, "beta", P["beta"])]
+    apply_sets(k, sets, opt)
     return k
 
 
@@ -427,25 +671,47 @@ def build_tree(K, node):
     if t == "leaf":
         return build_leaf(K, node)
     if t == "scale":
-        k = K.ScaleKernel(build_tree(K, node["a"]), **({"batch_shape": torch.Size(node["bs"])} if len(node["bs"]) else {})).to(D64)
-        k.outputscale = node["s"]
+        opt = node.get("opt") or {}
+        k = K.ScaleKernel(build_tree(K, node["a"]), **({"batch_shape": torch.Size(node["bs"])} if len(node["bs"]) else {}), **neutral_kwargs(opt)).to(D64)
+        apply_sets(k, [(k, "outputscale", node["s"])], opt)
         return k
     if t == "sum":
         return build_tree(K, node["a"]) + build_tree(K, node["b"])
     if t == "product":
         return build_tree(K, node["a"]) * build_tree(K, node["b"])
     if t == "addstruct":
-        return K.AdditiveStructureKernel(build_tree(K, node["a"]), num_dims=node["D"])
+        return K.AdditiveStructureKernel(build_tree(K, node["a"]), num_dims=node["D"], **({"active_dims": tuple(node["ad"])} if node.get("ad") is not None else {}))
     if t == "prodstruct":
-        return K.ProductStructureKernel(build_tree(K, node["a"]), num_dims=node["D"])
+        return K.ProductStructureKernel(build_tree(K, node["a"]), num_dims=node["D"], **({"active_dims": tuple(node["ad"])} if node.get("ad") is not None else {}))
     raise KeyError(t)
 
 
 ACTIVE = {1: [1], 2: [2, 0], 3: [3, 0, 2]}          # active_dims for a kernel of d dims on inputs with d + 1 columns (not monotone on purpose)
 
 
+def arg_cell_tree(cell, g):
+    """an "args" cell of Kernels.tla: plain kernel of the family with ONE constructor argument at the value class cell["val"]"""
+    fam, d, ard = cell["fam"], cell["d"], cell["ard"]
+    bs = [2] if cell["batch"] == "kernel" else []
+    opt = dict(arg=cell["arg"], val=cell["val"], effect=cell["effect"])
+    ad = ACTIVE[d] if cell["adims"] else None
+    d_in = d + 1 if cell["adims"] else d
+    if fam in ("gskl", "distinput") and cell["adims"]:                 # columns [means, log variances] of d + 1 Gaussians; the kernel sees the means and log variances ACTIVE[d]
+        ad = ACTIVE[d] + [a + d_in for a in ACTIVE[d]]
+    if fam == "scale":
+        leaf = dict(t="leaf", fam="rbf", d=d, ard=True, bs=bs, ad=None, P=sample_params("rbf", d, True, bs, g))
+        return dict(t="scale", a=leaf, bs=bs, s=UD(g, 0.5, 2.0, *bs), opt=opt), d_in
+    if fam in ("addstruct", "prodstruct"):
+        base = cell["val"] if cell["arg"] == "base_kernel" else "rbf"
+        leaf = dict(t="leaf", fam=base, d=d, ard=True, bs=bs, ad=None, P=sample_params(base, d, True, bs, g))
+        return dict(t=fam, a=leaf, D=d, ad=ad), d_in
+    return dict(t="leaf", fam=fam, d=d, ard=ard, bs=bs, ad=ad, P=sample_params(fam, d, ard, bs, g, opt), opt=opt), d_in
+
+
 def cell_tree(cell, g):
     """the kernel tree, the number of input columns and the input family of a lattice cell"""
+    if cell.get("arg"):
+        return arg_cell_tree(cell, g)
     fam, d, ard = cell["fam"], cell["d"], cell["ard"]
     bs = [2] if cell["batch"] == "kernel" else []
     ad = ACTIVE[d] if cell["adims"] else None
@@ -455,7 +721,7 @@ def cell_tree(cell, g):
     if comp == "plain":
         tree = leaf
     elif comp == "scale":
-        tree = dict(t="scale", a=leaf, bs=bs, s=U(g, 0.5, 2.0, *bs))
+        tree = dict(t="scale", a=leaf, bs=bs, s=UD(g, 0.5, 2.0, *bs))
     elif comp in ("sum", "product"):
         if fam in GRAD_ORDER:                      # same number of outputs per input: a second kernel of the same family
             other = dict(t="leaf", fam=fam, d=d, ard=ard, bs=bs, ad=ad, P=sample_params(fam, d, ard, bs, g))
@@ -464,7 +730,7 @@ def cell_tree(cell, g):
         else:
             cols = d_in * (HAMMING_VOCAB if fam == "hamming" else 2 if fam == "gskl" else 1)
             other = dict(t="leaf", fam="rq", d=cols, ard=False, bs=bs, ad=None, P=sample_params("rq", cols, False, bs, g))
-        tree = dict(t=comp, a=dict(t="scale", a=leaf, bs=bs, s=U(g, 0.5, 2.0, *bs)), b=other)
+        tree = dict(t=comp, a=dict(t="scale", a=leaf, bs=bs, s=UD(g, 0.5, 2.0, *bs)), b=other)
     else:
         tree = dict(t=comp, a=leaf, D=d)
     return tree, d_in
